@@ -73,5 +73,25 @@ let handle toks =
             | Ok out -> "ok " ^ String.concat " " (List.map show_chunk out)
             | Err e -> Printf.sprintf "err %d" (int_of_z e))
        | _ -> "BAD")
+  | "merge" :: rest ->
+      (match ints rest with
+       | newdt :: k :: r ->
+           let rec cols n l acc = if n = 0 then (List.rev acc, l) else
+             (match l with
+              | fid :: m :: rest -> cols (n - 1) (drop m rest) ((z_of_int fid, List.map z_of_int (take m rest)) :: acc)
+              | _ -> failwith "cols") in
+           let rec chunks n l acc = if n = 0 then List.rev acc else
+             (match l with
+              | s :: e :: len :: kind :: run :: dt :: nf :: rest ->
+                  let cs, rest' = cols nf rest [] in
+                  chunks (n - 1) rest' ({ kstart = z_of_int s; kend = z_of_int e; klen = z_of_int len; kkind = z_of_int kind;
+                                          krun = z_of_int run; kdtype = z_of_int dt; kdata = cs } :: acc)
+              | _ -> failwith "kchunk") in
+           (match merge (chunks k r []) (z_of_int newdt) with
+            | Ok c -> Printf.sprintf "ok %d %d %s" (int_of_z c.kstart) (int_of_z c.kend)
+                        (String.concat ";" (List.map (fun (f, col) -> string_of_int (int_of_z f) ^ ":" ^
+                           String.concat "," (List.map (fun v -> string_of_int (int_of_z v)) col)) c.kdata))
+            | Err e -> Printf.sprintf "err %d" (int_of_z e))
+       | _ -> "BAD")
   | _ -> "UNKNOWN"
 let () = main_loop handle
